@@ -97,6 +97,23 @@ def replay(ctx: Ctx, recs: List[Dict[str, Any]]) -> None:
                     close(ctx, "scheme:merton:zero-intensity", "Merton model with zero jump intensity differs from geometric Brownian motion on the same normals", gm, exp, rs)
                     gk = generate_kou_jump(N, T, init_state=(x0,), sigma=sigma, mu=mu, dt=dt, jump_per_year=0.0, dtype=DT, engine=scripted_engine([Z]))
                     close(ctx, "scheme:kou:zero-intensity", "Kou model with zero jump intensity differs from geometric Brownian motion on the same normals", gk, exp, rs)
+            # the INSTRUMENT classes on the same normals (their constructor arguments must reach the generator as given:
+            # an intensity of exactly zero is zero)
+            if scheme == "gbm":
+                from pfhedge.instruments import BrownianStock, KouJumpStock, MertonJumpStock
+                sigma, mu, dt = 1.0, 0.5, 1 / 16
+                expi = 1.5 * torch.exp((mu - sigma ** 2 / 2) * dt * ks + sigma * math.sqrt(dt) * S)
+                for label, mk in (("MertonJumpStock(jump_per_year=0)", lambda e: MertonJumpStock(sigma=sigma, mu=mu, dt=dt, dtype=DT, jump_per_year=0.0, engine=e)),
+                                  ("KouJumpStock(jump_per_year=0)", lambda e: KouJumpStock(sigma=sigma, mu=mu, dt=dt, dtype=DT, jump_per_year=0.0, engine=e)),
+                                  ("KouJumpStock(jump_per_year=0 as int)", lambda e: KouJumpStock(sigma=sigma, mu=mu, dt=dt, dtype=DT, jump_per_year=0, engine=e))):
+                    try:
+                        inst = mk(scripted_engine([torch.zeros(N, T - 1, dtype=DT), Z]))
+                        inst.simulate(n_paths=N, time_horizon=(T - 1) * dt, init_state=(1.5,))
+                        close(ctx, f"scheme:instrument:{label.split('(')[0]}", f"{label}.simulate differs from geometric Brownian motion on the supplied normals", inst.spot, expi, rs)
+                    except MachineryError:
+                        raise
+                    except Exception as ex:
+                        ctx.violation(f"scheme:instrument:{label.split('(')[0]}", f"{label}.simulate raised {type(ex).__name__} with a supplied engine", {"error": repr(ex)[:200]})
             # one initial value PER PATH, given as a bare tensor (the documented tensor spelling of init_state)
             x0s = 1.0 + 0.25 * torch.arange(N, dtype=DT)
             sigma, mu, dt = 1.0, 0.5, 1 / 16
